@@ -44,6 +44,7 @@ Parse ==
   /\ E.e = "Parse"
   /\ Chk("C04_AllClassified", E.raw = 0)
   /\ Chk("C04_EmitEqualsRead", E.rt)
+  /\ Chk("C04_ReadEqualsDisk", E.disk)             \* the lines that were read are the lines of the file (CR LF / LF / CR separate lines, nothing else does)
   /\ Chk("C04_LineWidths", LET ls == LineSeq(E.toks) IN
                              /\ Len(ls) = Len(E.lineLens)
                              /\ \A k \in 1..Len(ls) : FoldLeft(LAMBDA acc, t : acc + t[3], 0, ls[k]) = E.lineLens[k])
